@@ -136,6 +136,8 @@ def rule_tracker(ctx):
              ctx.where(b), props=P)
     # ---- W4: composite tracker
     comp = [im for im in F.impls if im.get('trait') == TRK and im['self_ty'].startswith('pie::tracker::CompositeTracker') and im['crate'] == 'pie']
+    # the same impl is seen once per compilation unit of the crate (lib, lib-test, ...): one entry per impl id
+    comp = list({im.get('id'): im for im in comp}.values())
     if len(comp) != 1:
         R.missing('W4', 'CompositeTracker', 'impl Tracker for CompositeTracker not found', props=P)
     else:
